@@ -175,6 +175,13 @@ func (e *Executor) RunTask(ctx context.Context, call *Call) error {
 			return err
 		}
 
+		// The fingerprint this attempt is made for. It is recorded by
+		// statusOnSuccess once every command has succeeded.
+		var pendingStatus any
+		if !e.Dry {
+			pendingStatus = e.statusPending(t)
+		}
+
 		if !skipFingerprinting {
 			// Get the fingerprinting method to use
 			method := e.Taskfile.Method
@@ -185,7 +192,8 @@ func (e *Executor) RunTask(ctx context.Context, call *Call) error {
 			upToDate, err := fingerprint.IsTaskUpToDate(ctx, t,
 				fingerprint.WithMethod(method),
 				fingerprint.WithTempDir(e.TempDir.Fingerprint),
-				fingerprint.WithDry(e.Dry),
+				// Only look: see pendingStatus.
+				fingerprint.WithDry(true),
 				fingerprint.WithLogger(e.Logger),
 			)
 			if err != nil {
@@ -197,6 +205,16 @@ func (e *Executor) RunTask(ctx context.Context, call *Call) error {
 					e.Logger.Errf(logger.Magenta, "task: Task %q is up to date\n", t.Name())
 				}
 				return nil
+			}
+		}
+
+		// An attempt starts here. Whatever is recorded for this task stops
+		// being backed by a completed run until the commands have succeeded
+		// again, whichever way this attempt ends (failure, declined prompt,
+		// cancellation, kill).
+		if !e.Dry {
+			if err := e.statusOnError(t); err != nil {
+				e.Logger.VerboseErrf(logger.Yellow, "task: error cleaning status: %v\n", err)
 			}
 		}
 
@@ -245,6 +263,11 @@ func (e *Executor) RunTask(ctx context.Context, call *Call) error {
 				}
 
 				return &errors.TaskRunError{TaskName: t.Task, Err: err}
+			}
+		}
+		if !e.Dry {
+			if err := e.statusOnSuccess(t, pendingStatus); err != nil {
+				e.Logger.VerboseErrf(logger.Yellow, "task: error recording status: %v\n", err)
 			}
 		}
 		e.Logger.VerboseErrf(logger.Magenta, "task: %q finished\n", call.Task)
